@@ -53,6 +53,11 @@ def guard_ethernet_ctor(prog):
     if good:
         tr = q.ok_edge_of_try(nc, cl[0])
         good = tr is not None and tr[1] is not None and all(bi in q.edge_dominated(nc, tr[0], tr[1]) for bi, _, _ in oks)
+    if not good and len(cl) == 1 and not oks:
+        # `self.check_len().map(|()| packet)` (or and_then / ?-free forms): the value returned *is* check_len's
+        # result passed through adaptors that keep an Err an Err
+        ret = Prov(nc, transparent={"Result::map", "Result::and_then", "Result::map_err", "Result::inspect_err", "Try::branch", "FromResidual::from_residual"}).of_local(0)
+        good = any(x[0] == "call" and x[1] == "EthernetFrame::check_len" for x in ret) and not any(x[0] == "agg" and x[1] == "Result" for x in ret)
     if not good:
         ok = False
         why.append("new_checked does not return Ok only after check_len succeeded")
